@@ -28,15 +28,19 @@ Record st := {
   dereg : bool;              (* callback_.destruct() done: the callback cannot be invoked any more *)
   ds_done : bool;            (* the deferred stop request completed (its fetch_sub done) *)
   cp_done : bool;            (* complete_and_choose_continuation did its fetch_sub *)
-  resumed : list nat         (* who resumed the continuation, newest first: 1 = deferred stop, 2 = completion *)
+  resumed : list nat;        (* who resumed the continuation, newest first: 1 = deferred stop, 2 = completion *)
+  kind : nat;                (* how the task's body ended: 0 value, 1 error, 2 done (a parameter of the run) *)
+  chosen : option nat        (* whoToContinue_: set by complete_and_choose_continuation from the body's result
+                                (task.hpp: continuation_.handle() for a value / exception, the done continuation for done) *)
 }.
 
 Inductive ev :=
 | ERc (sub : bool) (old new : Z)   (* refCount_ fetch_sub / fetch_add *)
 | EEnq                             (* the deferred stop request was handed to the scheduler *)
-| ERoot.                           (* the continuation is resumed *)
+| ERoot (k : option nat).          (* whoToContinue_ is resumed: the continuation for result kind k (None: unset) *)
 
-Definition init : st := {| rc := 1; cb := CbIdle; dereg := false; ds_done := false; cp_done := false; resumed := [] |}.
+Definition init (k : nat) : st :=
+  {| rc := 1; cb := CbIdle; dereg := false; ds_done := false; cp_done := false; resumed := []; kind := k; chosen := None |}.
 
 Definition step (t : nat) (s : st) : option (st * list ev) :=
   match t with
@@ -47,11 +51,11 @@ Definition step (t : nat) (s : st) : option (st * list ev) :=
           else
             let old := rc s in
             Some ({| rc := old + 1; cb := if old =? 0 then CbBail else CbAdded; dereg := dereg s;
-                     ds_done := ds_done s; cp_done := cp_done s; resumed := resumed s |},
+                     ds_done := ds_done s; cp_done := cp_done s; resumed := resumed s; kind := kind s; chosen := chosen s |},
                   [ERc false old (old + 1)])
       | CbAdded =>
           Some ({| rc := rc s; cb := CbDone; dereg := dereg s; ds_done := ds_done s; cp_done := cp_done s;
-                   resumed := resumed s |}, [EEnq])
+                   resumed := resumed s; kind := kind s; chosen := chosen s |}, [EEnq])
       | _ => None
       end
   | S O =>   (* task.hpp receiver_t::set_value, run by the scheduler *)
@@ -61,8 +65,8 @@ Definition step (t : nat) (s : st) : option (st * list ev) :=
           else
             let old := rc s in
             Some ({| rc := old - 1; cb := cb s; dereg := dereg s; ds_done := true; cp_done := cp_done s;
-                     resumed := if old =? 1 then 1%nat :: resumed s else resumed s |},
-                  ERc true old (old - 1) :: (if old =? 1 then [ERoot] else []))
+                     resumed := if old =? 1 then 1%nat :: resumed s else resumed s; kind := kind s; chosen := chosen s |},
+                  ERc true old (old - 1) :: (if old =? 1 then [ERoot (chosen s)] else []))
       | _ => None
       end
   | S (S O) =>   (* task.hpp complete_and_choose_continuation *)
@@ -72,8 +76,9 @@ Definition step (t : nat) (s : st) : option (st * list ev) :=
            | _ =>
                let old := rc s in
                Some ({| rc := old - 1; cb := cb s; dereg := true; ds_done := ds_done s; cp_done := true;
-                        resumed := if old =? 1 then 2%nat :: resumed s else resumed s |},
-                     ERc true old (old - 1) :: (if old =? 1 then [ERoot] else []))
+                        resumed := if old =? 1 then 2%nat :: resumed s else resumed s; kind := kind s;
+                        chosen := Some (kind s) |},
+                     ERc true old (old - 1) :: (if old =? 1 then [ERoot (Some (kind s))] else []))
            end
   | _ => None
   end.
